@@ -343,8 +343,8 @@ def run(ctx):
         "judged": len(jops),
         "source_facts": {"lockout_update": f14.get("totp", {}).get("lockout_update"), "backend_callers": f14.get("backend_callers"),
                          "limit_check": f14.get("limit_check"), "limiter_config": {k: v for k, v in f14.get("limiter_config", {}).items() if k != "limiter_uses"}},
-        "samples": [{"op": ops[i], "impl": impl[i], "model": model[i]} for i in list(range(1, 4)) + list(range(12, 15))] +
-                   [{"op": ops[i], "impl": impl[i], "model": model[i]} for i in at_idx[13:16]],
+        "samples": [{"op": ops[i], "impl": impl[i], "model": model[i]}
+                    for i in list(range(1, 4)) + list(range(12, 15)) + at_idx[13:16] if i < len(ops)],
     })
     ctx.assumptions += [
         "x/time/rate computes in float64; the model is exact: generated request times are kept >= 60 scaled units (6e-11 tokens) away from the 1 ns wait-duration boundary",
